@@ -69,6 +69,9 @@ def plan(tier, seed):
     if tier == "thorough":
         for a, b in E.chunks(59049, 1000):
             shards.append(("g", 5, 3, "zero", a, b))
+    # one large instance per k (sizes beyond 256 samples: small-integer caches, 8-bit counters)
+    for k in (1, 3):
+        shards.append(("big", 300, k))
     depth = 4 if tier == "quick" else 5
     for gi in range(27):
         shards.append(("seq", 3, 3, gi, depth))
@@ -391,8 +394,28 @@ def fviol(prog, prob, sym):
             "explanation": prob, "fingerprint": "%s.fit: %s" % (prog["model"], sym)}
 
 
+def big_program(n, k, seed):
+    sc = [1.0, 0.5, 2.0][seed % 3]
+    X = [[sc * (i * 1.0 + (i % 7) * 0.01 + (i % 3) * 0.3)] for i in range(n)]
+    return {"mode": "features", "X": X, "metric": "euclidean",
+            "ops": [["create_arcs", k], ["calculate_pdf", k], ["eliminate", 0.5]]}
+
+
 def run(shard, seed):
     res = Result()
+    if shard[0] == "big":
+        prog = big_program(shard[1], shard[2], seed)
+        with horizon(120.0):
+            v, _ = run_case(prog, res)
+        res.evaluations += 1
+        res.traces += 1
+        res.states += 1
+        res.nontrivial += 1
+        if v:
+            v["program"] = {"big": [shard[1], shard[2], seed]}
+            res.violations.append(v)
+        res.sample({"big_instance": "300 one-dimensional samples", "k": shard[2]}, 1)
+        return res
     if shard[0] in ("g", "feat"):
         shard_fresh(shard, seed, res)
     elif shard[0] == "seq":
@@ -420,6 +443,12 @@ def run(shard, seed):
 
 def replay(case):
     prog = case["program"]
+    if "big" in prog:
+        n, k, seed = prog["big"]
+        v = run_case(big_program(n, k, seed))[0]
+        if v:
+            v["program"] = prog
+        return v
     if "model" in prog:
         return fit_case(prog)
     return run_case(prog)[0]
